@@ -259,8 +259,8 @@ func ValidityLints(fn *ssa.Function) []LintFinding {
 						if !ok || len(ret.Results) == 0 {
 							continue
 						}
-						last := ret.Results[len(ret.Results)-1]
-						if last != subj {
+						last := ResultAt(ret, len(ret.Results)-1)
+						if last != subj && throughCell(last) != throughCell(subj) {
 							continue
 						}
 						// only the early-exit shape: the return sits directly in the tested branch
@@ -274,7 +274,7 @@ func ValidityLints(fn *ssa.Function) []LintFinding {
 
 			var call ssa.Value
 			var errIdx int
-			if ex, ok := subj.(*ssa.Extract); ok {
+			if ex, ok := throughCell(subj).(*ssa.Extract); ok {
 				if c, ok := ex.Tuple.(*ssa.Call); ok {
 					call, errIdx = c, ex.Index
 				}
@@ -286,11 +286,16 @@ func ValidityLints(fn *ssa.Function) []LintFinding {
 					if !ok || ex.Index == errIdx {
 						continue
 					}
-					for _, u := range *ex.Referrers() {
-						if !in(u.Block()) || isReporting(u) {
-							continue
+					for _, cv := range carriersIn(ex, in) {
+						for _, u := range *cv.Referrers() {
+							if !in(u.Block()) || isReporting(u) {
+								continue
+							}
+							if st, ok := u.(*ssa.Store); ok && st.Val == cv {
+								continue // copied into a variable: the uses of that variable are examined
+							}
+							out = append(out, LintFinding{u, "result #" + itoa(ex.Index) + " of " + Short(Expr(call), 50) + " is used on the path where its error is non-nil: the call failed, the value is not valid"})
 						}
-						out = append(out, LintFinding{u, "result #" + itoa(ex.Index) + " of " + Short(Expr(call), 50) + " is used on the path where its error is non-nil: the call failed, the value is not valid"})
 					}
 				}
 			}
@@ -346,6 +351,7 @@ func ValidityLints(fn *ssa.Function) []LintFinding {
 
 // errorSource: v is the error result of a call (directly, or an extract of its tuple).
 func errorSource(v ssa.Value) (ssa.Value, bool) {
+	v = throughCell(v)
 	switch x := v.(type) {
 	case *ssa.Extract:
 		if c, ok := x.Tuple.(*ssa.Call); ok {
@@ -355,4 +361,139 @@ func errorSource(v ssa.Value) (ssa.Value, bool) {
 		return x, true
 	}
 	return nil, false
+}
+
+
+// throughCell: v is a load of a local variable cell (a variable captured by a
+// closure lives in a heap cell); returns the value most recently stored into
+// the cell when that is unambiguous (a store earlier in the same block, or the
+// only store), else v.
+func throughCell(v ssa.Value) ssa.Value {
+	ld, ok := v.(*ssa.UnOp)
+	if !ok || ld.Op != token.MUL {
+		return v
+	}
+	al, ok := ld.X.(*ssa.Alloc)
+	if !ok || al.Referrers() == nil {
+		return v
+	}
+	var stores []*ssa.Store
+	for _, r := range *al.Referrers() {
+		if st, ok := r.(*ssa.Store); ok && st.Addr == ssa.Value(al) {
+			stores = append(stores, st)
+		}
+	}
+	// last store before the load in the same block
+	b := ld.Block()
+	var last *ssa.Store
+	for _, in := range b.Instrs {
+		if in == ssa.Instruction(ld) {
+			break
+		}
+		if st, ok := in.(*ssa.Store); ok && st.Addr == ssa.Value(al) {
+			last = st
+		}
+	}
+	if last != nil {
+		return last.Val
+	}
+	if len(stores) == 1 {
+		return stores[0].Val
+	}
+	// the store in the nearest dominating block
+	for d := b.Idom(); d != nil; d = d.Idom() {
+		var found *ssa.Store
+		for _, in := range d.Instrs {
+			if st, ok := in.(*ssa.Store); ok && st.Addr == ssa.Value(al) {
+				found = st
+			}
+		}
+		if found != nil {
+			return found.Val
+		}
+	}
+	return v
+}
+
+// carriersIn: v itself plus loads, inside the region, of local cells that hold v
+// (stored once from v, or last stored from v before the region).
+func carriersIn(v ssa.Value, in func(*ssa.BasicBlock) bool) []ssa.Value {
+	out := []ssa.Value{v}
+	if v.Referrers() == nil {
+		return out
+	}
+	for _, r := range *v.Referrers() {
+		st, ok := r.(*ssa.Store)
+		if !ok || st.Val != v {
+			continue
+		}
+		al, ok := st.Addr.(*ssa.Alloc)
+		if !ok || al.Referrers() == nil {
+			continue
+		}
+		for _, r2 := range *al.Referrers() {
+			if ld, ok := r2.(*ssa.UnOp); ok && ld.Op == token.MUL && in(ld.Block()) && throughCell(ld) == v {
+				out = append(out, ld)
+			}
+		}
+	}
+	return out
+}
+
+
+// LockBalanceLints (L8): a sync.Mutex / RWMutex locked in fn is released on
+// every path to a return (directly, or by a deferred unlock installed on every
+// such path), and an unlock - direct or deferred - is matched by a lock taken
+// in the same function.
+func LockBalanceLints(fn *ssa.Function) []LintFinding {
+	var out []LintFinding
+	ops, instrs := LockCalls(fn)
+	if len(ops) == 0 {
+		return nil
+	}
+	ls := ComputeLocks(fn, nil)
+	locked := map[string]bool{}
+	for _, op := range ops {
+		if op.Acquire {
+			locked[op.Path] = true
+		}
+	}
+	// deferred unlocks per path
+	deferred := map[string][]ssa.Instruction{}
+	for k, in := range instrs {
+		if _, isDefer := in.(*ssa.Defer); isDefer && !ops[k].Acquire {
+			deferred[ops[k].Path] = append(deferred[ops[k].Path], in)
+		}
+	}
+	for _, e := range Exits(fn, false) {
+		for pth := range ls.HeldAt(e) {
+			if !locked[pth] {
+				continue
+			}
+			ok := false
+			for _, d := range deferred[pth] {
+				if d.Block() == e.Block() || d.Block().Dominates(e.Block()) {
+					ok = true
+				}
+			}
+			if !ok {
+				out = append(out, LintFinding{e, "the function can return with " + pth + " still locked (no unlock and no deferred unlock on this path): every later use of the lock blocks forever"})
+			}
+		}
+	}
+	for k, in := range instrs {
+		op := ops[k]
+		if op.Acquire {
+			continue
+		}
+		if !locked[op.Path] {
+			// an unlock helper (the caller holds the lock) is legitimate only if nothing in this
+			// function suggests it owns the critical section: a *deferred* unlock does
+			if _, isDefer := in.(*ssa.Defer); isDefer {
+				out = append(out, LintFinding{in, "a deferred unlock of " + op.Path + " is installed but the function never locks it: unlock of an unlocked mutex is a fatal error"})
+			}
+			continue
+		}
+	}
+	return out
 }
